@@ -35,6 +35,9 @@ def special_programs() -> dict:
         # line boundary or as white space: VT, FF, FS/GS/RS, NEL, LS, PS, a lone CR, NBSP, ZWNBSP, DEL, SOH
         "seps": 's("a\x0bb\x0cc\x1cd\x1de\x1ef\x85g\u2028h\u2029i\rj\xa0k\ufefflm\x7fn\x01o"). % page\x0cbreak: old(1). \u2028 new(2).\n'
         't(X) :- s(X). % \x85 tail(3).\n#show t/1.\n',
+        # small programs whose result depends on which predicates are declared input / output
+        "iosens1": "b(X) :- c(X).\n{ a } :- b(X).\nfoo(X,Y) :- p(X,Y), not q(Y).\n#show a/0.\n",
+        "iosens2": "{ a(X) } :- d(X).\nb(X) :- a(X), d(X).\nc(X) :- b(X).\n:- c(X), X > 3.\n",
         "crlf": "a :- b.\r\nc(X) :- d(X), not e(X).\r\n#show c/1.\r\n",
         "tabs": "a\t:-\tb.\n\tc(X) :- d(X),\n\t\tnot e(X).\n#show c/1.\n",
         "lastcomment": "c(X) :- d(X).\n#show c/1.\n% trailing comment without newline",
@@ -302,6 +305,41 @@ def run(args) -> int:
                     "small_pipes": True,
                 }
             )
+    # predicate-option states, systematically: {absent, auto, no value, empty, list} x the same for the other option,
+    # on the probe and on two small programs whose result depends on what is declared input / output
+    if cfg["enumerate"]:
+        prng = stream(seed, "c19", "enum-io")
+        for pid in ("probe", "iosens1", "iosens2"):
+            text = progs[pid]
+            heads, bodies = workload._heads_and_bodies(text)  # pylint: disable=protected-access
+            preds = workload.predicates_of(text)
+            ins = [p for p in preds if p not in heads][:3] or preds[:1]
+            outs = [p for p in preds if p in heads][:2] or preds[:1]
+            lists = {"inp": ",".join(f"{n}/{a}" for n, a in ins), "out": ", ".join(f"{n}/{a}" for n, a in outs)}
+            for si in ("ABSENT", "auto", "NOVALUE", "", "LIST"):
+                for so in ("ABSENT", "auto", "NOVALUE", "", "LIST"):
+                    spec = {}
+                    if si != "ABSENT":
+                        spec["inp"] = lists["inp"] if si == "LIST" else si
+                    if so != "ABSENT":
+                        spec["out"] = lists["out"] if so == "LIST" else so
+                    if pid == "probe" and prng.random() < 0.5:
+                        spec["enable"] = ["all"]
+                    runs.append(
+                        {
+                            "program": pid,
+                            "spec": spec,
+                            "argv": climodel.render(spec, prng),
+                            "acls": "enum-io",
+                            "scls": "one-block/drain4096/random/pipe",
+                            "chunks": [],
+                            "drain_seed": 0,
+                            "drain_sizes": [4096],
+                            "drain_policy": "random",
+                            "buffering": "pipe",
+                            "small_pipes": True,
+                        }
+                    )
     rng = stream(seed, "c19", "sampled")
     weights = [6 if p == "probe" else (1 if p in ("big", "longline") else 3) for p in pids]
     for _ in range(cfg["sampled"]):
